@@ -869,6 +869,34 @@ fn emit_family(prop: &str, seed: u64, quick: bool, out: &mut Vec<Fail>) -> usize
                             }
                         }
                     }
+                    let mut gfail = |props: &[&str], e: String, a: String| { if props.contains(&prop) { out.push(Fail { family: "gen", input: join_sources(&mods_ref), ptr, expected: e, actual: a }); } };
+                    // C01: every field where the generator put it
+                    for (tpath, fname, off) in &expect.fields {
+                        if let Some((_, td)) = get_type(&st, tpath) {
+                            let got = offsets(td, &st, ptr).into_iter().find(|(n, _, _)| n == fname).map(|x| x.1);
+                            if got != Some(*off) { gfail(&["C01", "C20"], format!("`{tpath}`.{fname} at offset {off}"), format!("{got:?}")); }
+                        }
+                    }
+                    // C07 / C05 / C16 / C17 / C04: the functions of every type, as the generator derived them from the property text
+                    for (tpath, assoc, vfs) in &expect.fns {
+                        let Some((_, td)) = get_type(&st, tpath) else { continue };
+                        let show = |f: &Function| format!("{}{} [{}] {:?}", if f.visibility == Visibility::Public { "pub " } else { "" }, f.name, f.calling_convention.as_str(), f.body);
+                        let want: Vec<String> = assoc.iter().map(|f| format!("{}{} [{}] {}", if f.public { "pub " } else { "" }, f.name, f.cc, match &f.body {
+                            gen::BodyExp::Address(a) => format!("Address {{ address: {a} }}"),
+                            gen::BodyExp::Vftable(n) => format!("Vftable {{ function_name: {n:?} }}"),
+                            gen::BodyExp::Field(fl, n) => format!("Field {{ field: {fl:?}, function_name: {n:?} }}") })).collect();
+                        let got: Vec<String> = td.associated_functions.iter().map(show).collect();
+                        if got != want { gfail(&["C07", "C05", "C16", "C17"], format!("`{tpath}` associated functions {want:?}"), format!("{got:?}")); }
+                        let wantv: Vec<String> = vfs.iter().map(|f| format!("{}{} [{}]", if f.public { "pub " } else { "" }, f.name, f.cc)).collect();
+                        let gotv: Vec<String> = td.vftable.as_ref().map(|v| v.functions.iter().filter(|f| !f.name.starts_with("_vfunc_")).map(|f| format!("{}{} [{}]", if f.visibility == Visibility::Public { "pub " } else { "" }, f.name, f.calling_convention.as_str())).collect()).unwrap_or_default();
+                        if gotv != wantv { gfail(&["C04", "C06", "C16", "C17"], format!("`{tpath}` named vftable functions {wantv:?}"), format!("{gotv:?}")); }
+                    }
+                    // C08: enum values and the default variant
+                    for (epath, vals, def) in &expect.enums {
+                        let Some(ed) = st.type_registry().get(&ItemPath::from(epath.as_str())).and_then(|d| d.resolved()).and_then(|r| r.inner.as_enum()) else { continue };
+                        let got: Vec<(String, i128)> = ed.fields.iter().map(|(n, v)| (n.clone(), *v as i128)).collect();
+                        if &got != vals || ed.default_index != *def { gfail(&["C08", "C20"], format!("`{epath}` values {vals:?} default {def:?}"), format!("{got:?} default {:?}", ed.default_index)); }
+                    }
                     let e = emit_checked(ptr, &st, &mods_ref, &dir);
                     for x in &e.viols { emit_fail(out, prop, join_sources(&mods_ref), ptr, x); }
                 }
